@@ -8,7 +8,9 @@
 (*          documents as sequences of event records (for node and value    *)
 (*          paths: the canonical traversal, tags never elidable), snaps =  *)
 (*          the output text observed after each document, final = the      *)
-(*          complete text (sequences of code points)                       *)
+(*          complete text (sequences of code points); optional: unread     *)
+(*          (read back from a file-like object), snapoff (lengths of the   *)
+(*          texts after the documents instead of snaps)                    *)
 (*  family  [fam |-> 1, texts]  the texts observed after the same leading  *)
 (*          documents in runs with different continuations                 *)
 (* Verdict line <<"VERDICT", tid, ok, why, at>>.                           *)
@@ -21,20 +23,36 @@ VARIABLE tid
 
 HasEmptyRoot(din) == \E j \in DOMAIN din : HD!EmptyRootDoc(din[j])
 
+\* A run whose documents were read back from a file-like object (spec/DocDeliver.tla) carries `unread`: the number of units of
+\* the stream the loader never asked for.  Its text was read back correctly from a string before, so a failure is named after the
+\* delivery, never after the emitter's empty-root shapes.
+Delivered(t) == "unread" \in DOMAIN t
+DeliveryLabel(t) == IF t.unread > 0 THEN ":input-not-read" ELSE ":delivery"
+\* The texts after the documents are given in full (`snaps`) or - when each of them is a prefix of the final text, which is
+\* what the offsets then say - as their lengths (`snapoff`; long lists).
+ByOffset(t) == "snapoff" \in DOMAIN t
+NSnaps(t) == IF ByOffset(t) THEN Len(t.snapoff) ELSE Len(t.snaps)
+NotKept(t) == IF ByOffset(t) THEN {j \in DOMAIN t.snapoff : t.snapoff[j] > Len(t.final)}
+              ELSE {j \in DOMAIN t.snaps : ~HD!IsPrefix(t.snaps[j], t.final)}
+Changed(t) == IF ByOffset(t) THEN \E j \in 1 .. Len(t.snapoff) - 1 : t.snapoff[j] > t.snapoff[j + 1]
+              ELSE \E j \in 1 .. Len(t.snaps) - 1 : ~HD!IsPrefix(t.snaps[j], t.snaps[j + 1])
+
 JudgeRun(t) ==
-  IF t.outcome = "exception" THEN [ok |-> FALSE, why |-> "non-YAML exception", at |-> 0]
+  IF t.outcome = "exception" THEN [ok |-> FALSE, why |-> "non-YAML exception" \o (IF Delivered(t) THEN DeliveryLabel(t) ELSE ""), at |-> 0]
   ELSE IF t.outcome # "ok"
-  THEN [ok |-> FALSE, why |-> t.outcome \o (IF HasEmptyRoot(t.din) THEN ":has-empty-root:" \o HD!EmptyRootKind(t.din) ELSE ""), at |-> 0]
+  THEN [ok |-> FALSE, at |-> 0,
+        why |-> t.outcome \o (IF Delivered(t) THEN DeliveryLabel(t)
+                              ELSE IF HasEmptyRoot(t.din) THEN ":has-empty-root:" \o HD!EmptyRootKind(t.din) ELSE "")]
   ELSE LET r == HD!SameDocuments(t.din, t.dout)
        IN  IF ~r.ok
            THEN [ok |-> FALSE, at |-> r.at,
-                 why |-> r.why \o (IF r.why = "tag" /\ r.at > 0 /\ HD!H!RedefinesDefault(t.din[r.at][1]) THEN ":default-handle-redefined"
+                 why |-> r.why \o (IF Delivered(t) THEN DeliveryLabel(t)
+                                   ELSE IF r.why = "tag" /\ r.at > 0 /\ HD!H!RedefinesDefault(t.din[r.at][1]) THEN ":default-handle-redefined"
                                    ELSE IF HD!LostEmptyDocs(t.din, t.dout, 0) THEN ":empty-root-lost:" \o HD!LostKind(t.din, t.dout) ELSE "")]
-           ELSE IF Len(t.snaps) # Len(t.din) THEN [ok |-> FALSE, why |-> "snapshot count", at |-> 0]
-           ELSE IF \E j \in DOMAIN t.snaps : ~HD!IsPrefix(t.snaps[j], t.final)
-           THEN [ok |-> FALSE, why |-> "text after a document is not kept",
-                 at |-> CHOOSE j \in DOMAIN t.snaps : ~HD!IsPrefix(t.snaps[j], t.final)]
-           ELSE IF \E j \in 1 .. Len(t.snaps) - 1 : ~HD!IsPrefix(t.snaps[j], t.snaps[j + 1])
+           ELSE IF NSnaps(t) # Len(t.din) THEN [ok |-> FALSE, why |-> "snapshot count", at |-> 0]
+           ELSE IF NotKept(t) # {}
+           THEN [ok |-> FALSE, why |-> "text after a document is not kept", at |-> CHOOSE j \in NotKept(t) : TRUE]
+           ELSE IF Changed(t)
            THEN [ok |-> FALSE, why |-> "text of an earlier document changed", at |-> 0]
            ELSE [ok |-> TRUE, why |-> "-", at |-> 0]
 
